@@ -41,6 +41,8 @@ pub fn take_panic_msg() -> String { PANIC_MSG.with(|m| m.borrow_mut().take()).un
 
 #[derive(Clone, Debug, Default)]
 pub struct Out {
+    /// maximize() did not return (parallel solver only)
+    pub hang: bool,
     pub panicked: Option<String>,
     pub fuel_out: bool,
     pub is_exact: bool,
@@ -137,4 +139,63 @@ where D: DecisionDiagram<State = St> + Default, C: Cache<State = St> + Default {
 
 pub fn run_seq(m: &dyn Model, spec: &RunSpec) -> Out {
     seq_dispatch!(spec.cfg, run_seq_inner, m, spec)
+}
+
+// ------------------------------------------------------------------------------------------------------------
+// the PARALLEL solver with a fixed small number of workers and no controlled scheduler: with ONE worker the run is
+// deterministic, which makes it usable for bounded-exhaustive sweeps over inputs (the schedules are E1's business)
+// ------------------------------------------------------------------------------------------------------------
+macro_rules! par_dispatch1 {
+    ($cfg:expr, $f:ident, $($args:expr),*) => {
+        match ($cfg.dd, $cfg.cache) {
+            (DdKind::Lel, false) => $f::<RecDD<DefaultMDDLEL<St>>, EmptyCache<St>>($($args),*),
+            (DdKind::Lel, true) => $f::<RecDD<DefaultMDDLEL<St>>, RecCache>($($args),*),
+            (DdKind::Fc, false) => $f::<RecDD<DefaultMDDFC<St>>, EmptyCache<St>>($($args),*),
+            (DdKind::Fc, true) => $f::<RecDD<DefaultMDDFC<St>>, RecCache>($($args),*),
+            (DdKind::Pooled, false) => $f::<RecDD<Pooled<St>>, EmptyCache<St>>($($args),*),
+            (DdKind::Pooled, true) => $f::<RecDD<Pooled<St>>, RecCache>($($args),*),
+        }
+    };
+}
+fn run_par_inner<D, C>(m: &dyn Model, spec: &RunSpec, threads: usize) -> Out
+where D: DecisionDiagram<State = St> + Default, C: Cache<State = St> + Default + Send + Sync {
+    let rec = RecModel(m);
+    let rank = RankRef(m);
+    let width = FixedWidth(spec.cfg.width);
+    let dom = RecDom::new(m);
+    let cut = KCut::new(spec.fire_at, fuel_for(m));
+    let mut simple = SimpleFringe::new(MaxUB::new(&rank));
+    let mut nodup = NoDupFringe::new(MaxUB::new(&rank));
+    let fringe: &mut (dyn Fringe<State = St> + Send + Sync) = if spec.cfg.nodup { &mut nodup } else { &mut simple };
+    let mut out = Out::default();
+    let mut solver = ParallelSolver::<St, D, C>::custom(&rec, &rec, &rec, &width, &dom, &cut, fringe, threads);
+    if let Some((v, s)) = &spec.primal { solver.set_primal(*v, s.clone()); }
+    if let Some((v, s)) = &spec.primal2 { solver.set_primal(*v, s.clone()); }
+    let r = catch_unwind(AssertUnwindSafe(|| solver.maximize()));
+    match r {
+        Err(_) => { out.panicked = Some(take_panic_msg()); }
+        Ok(c) => {
+            out.is_exact = c.is_exact;
+            out.completion_value = c.best_value;
+            out.best_value = solver.best_value();
+            out.best_solution = solver.best_solution();
+            out.lb = solver.best_lower_bound();
+            out.ub = solver.best_upper_bound();
+            out.explored = solver.explored();
+            out.gap = solver.gap();
+        }
+    }
+    out.polls = cut.polls.load(SeqCst);
+    out.fuel_out = cut.exhausted.load(SeqCst);
+    out
+}
+/// Runs the parallel solver in a helper thread; `None` = maximize() did not return within 10 s (the thread is abandoned)
+pub fn run_par(m: std::sync::Arc<dyn Model>, spec: &RunSpec, threads: usize) -> Option<Out> {
+    let (tx, rx) = std::sync::mpsc::channel();
+    let spec2 = spec.clone();
+    std::thread::spawn(move || {
+        let out = par_dispatch1!(spec2.cfg, run_par_inner, m.as_ref(), &spec2, threads);
+        let _ = tx.send(out);
+    });
+    rx.recv_timeout(std::time::Duration::from_secs(10)).ok()
 }
